@@ -217,6 +217,10 @@ def action_and_helper_asts(G, p, depth=3):
     """the syntax tree of a production's action together with those of the helper functions it (transitively) calls"""
     helpers = {}
     for h in G.g.get("helpers") or []:
+        if h.get("kind") == "const":
+            # a named constant the action refers to: its initialiser is part of what the action computes with
+            helpers.setdefault(h["name"], []).append(dict(h, body=h["expr"]))
+            continue
         helpers.setdefault(h["name"], []).append(h)
     out, seen = [], set()
 
@@ -232,6 +236,8 @@ def action_and_helper_asts(G, p, depth=3):
                     name = n.get("m")
                 elif n.get("k") == "call" and isinstance(n.get("f"), dict) and n["f"].get("k") == "path":
                     name = n["f"]["segs"][-1]
+                elif n.get("k") == "path" and n.get("segs") and n["segs"][-1].isupper():
+                    name = n["segs"][-1]  # SCREAMING_CASE path: a constant
                 if name and name in helpers and name not in seen and len(helpers[name]) == 1:
                     seen.add(name)
                     add(helpers[name][0]["body"], d - 1)
